@@ -269,7 +269,7 @@ def run_c10(prop, tier, seed, workdir):
 
 
 ENGINES["C10"] = run_c10
-ENGINES["C02"] = run_arena_and_os
+ENGINES["C02"] = run_arena_and_printf      # incl. the formatted-output family: string arguments without a terminator for %.Ns
 ENGINES["C06"] = run_c06
 def run_c01(prop, tier, seed, workdir):
     """C01: the algorithm layer of mem_prim_set (MemSet.tla: alignment head, unrolled word blocks, tail) is model-checked first"""
